@@ -157,6 +157,19 @@ def _check_ctor(mode):
     return True, "ok"
 
 
+def _check_flip_history(sizes):
+    """flips of registers of several sizes one after the other in ONE process (descending, ascending, repeated): each is the bit-reversal permutation of ITS vector"""
+    import numpy as np
+    from orquestra.quantum.wavefunction import flip_amplitudes
+    for step, n in enumerate(sizes):
+        v = np.arange(2 ** n, dtype=float) + 0.5
+        f = np.array(flip_amplitudes(v))
+        want = np.array([v[int(format(i, f"0{n}b")[::-1], 2) if n else 0] for i in range(2 ** n)])
+        if f.shape != want.shape or not np.array_equal(f, want):
+            return False, f"sizes flipped so far {list(sizes[:step + 1])}: the flip of the {n}-qubit vector is not its bit-reversal permutation"
+    return True, "ok"
+
+
 def _bind_map_cases():
     choices = ["absent", "small", "big", "other", "self+other", "other/2", "imag"]
     for t in range(3):
@@ -365,6 +378,9 @@ def build(tier, seed):
     obs.append(vprop.enum_ob("C12.history.enum", [C_SET.key, W + ":Wavefunction.bind"], _histories(tier), _check_history,
                              "bounded: adversarial assignment / binding histories (tolerance-sized drifts, rejected then accepted writes, numeric / symbolic / mixed): "
                              "the object stays valid for its own constructor, rejected steps change nothing", exhaustive=False))
+    obs.append(vprop.enum_ob("C12.flip_history.enum", [W + ":flip_amplitudes", W + ":_get_ordering"],
+                             lambda: [(6, 6, 4, 2, 4, 1, 3, 6), (1, 2, 3, 4, 5, 4, 3, 2, 1), (7, 3, 7, 3), (5, 4, 3, 2, 1, 1, 2, 3, 4, 5), (8, 1, 8)], _check_flip_history,
+                             "bounded: register sizes flipped in descending / ascending / repeated order within one process: every flip is the bit reversal of its own vector (no state carried between sizes)"))
     obs.append(vprop.enum_ob("C12.bind_maps.enum", [W + ":Wavefunction.bind", W + ":Wavefunction._check_normalization", W + ":_is_number"], _bind_map_cases, _check_bind_map,
                              "bounded: three symbolic states with numeric norm 0.5 x every assignment of {absent, 0.1, 0.9, 0.75j, another symbol, self + another, another / 2} to each of their 2..3 symbols: "
                              "the bound state is valid or the call raises; the receiver never changes"))
